@@ -185,7 +185,7 @@ def occupancies(draw, prof, t_start):
             tt = t
             t += 1
         occ.append({"t": tt, "shape": draw(gg.any_shape(lo=prof["dim_lo"]))})
-    return occ
+    return gs.shuffled(draw, occ)      # the list need not be in ascending time order
 
 
 @st.composite
